@@ -50,6 +50,11 @@ struct Result {
   void cls(const std::string &c) { classes.push_back(c); }
 };
 
+inline Result *&g_current() {
+  static Result *r = nullptr;
+  return r;
+}
+
 struct Runner;
 struct Prop {
   std::string id;
@@ -169,7 +174,9 @@ struct Runner {
     journal(tape.data(), tape.size(), 'T');
     Tape t(tape);
     Result r;
+    g_current() = &r;
     prop->fn(t, r);
+    g_current() = nullptr;
     account(r);
     if (!r.ok) {
       last_fail.tape = tape;
@@ -289,6 +296,11 @@ inline void on_alarm(int) {
   const char m[] = "VERIF-TIMEOUT: a single case exceeded the hang guard\n";
   ssize_t w = write(2, m, sizeof m - 1);
   (void)w;
+  // not async-signal-safe, but the process is about to exit and the decoded case is worth having
+  if (g_current() && g_current()->sample.t != J::NUL) {
+    std::string d = "VERIF-TIMEOUT-CASE: " + g_current()->sample.dump() + "\n";
+    w = write(2, d.data(), d.size());
+  }
   _exit(3);
 }
 
@@ -365,6 +377,7 @@ inline ForkOutcome run_forked(const Prop &prop, const std::vector<uint8_t> &tape
     signal(SIGALRM, on_alarm);
     alarm((unsigned)env_int("VERIF_FORK_TIMEOUT", 30));
     Result r;
+    g_current() = &r;
     if (jcase && prop.judge_json)
       prop.judge_json(*jcase, r);
     else {
@@ -603,7 +616,10 @@ inline int harness_main(int argc, char **argv) {
     std::vector<uint8_t> tape = from_hex(pos[0]);
     Tape t(tape);
     Result r;
+    g_current() = &r;
+    alarm(10);
     prop->fn(t, r);
+    alarm(0);
     printf("%s\nok=%d nontrivial=%d discard=%d sig=%s msg=%s\n", r.sample.dump().c_str(), r.ok, r.nontrivial,
            r.discard, r.sig.c_str(), r.msg.c_str());
     return 0;
